@@ -92,6 +92,16 @@ Example rej_skip_not_failed :
      GTop (EDec 0 1); GTop (EEnq 0 1); GTop (EDeq 1); GTop (ESpawn 1); GTop (EStart 1); GTop (EEnd 1 (Some tt))] 0 = Some 11.
 Proof. vm_compute. reflexivity. Qed.
 
+(* the checker with skip bits: package 2 fails while the runner executes (EEnd 2 None); its dependent 3 must be
+   skipped; a trace in which 3 ran exec although 2 had failed is rejected at 3's start *)
+Definition annot (skip3 : bool) : list (glabel unit unit * bool) :=
+  map (fun l => (l, match l with GTop (EStart 3) => skip3 | _ => false end)) ex_trace.
+Example ex_skips_ok : valid_trace_skips unit unit ex_top [ex_in] [(0, 0); (1, 0); (2, 0); (3, 0)] 1 (annot true) = true.
+Proof. vm_compute. reflexivity. Qed.
+Example ex_skip_mismatch :
+  grun_skip unit unit false ex_gg 1 (ginit ex_gg 1) (annot false) 0 = inr (64, true).
+Proof. vm_compute. reflexivity. Qed.
+
 (* ---- results: exec sums the results of the dependencies, action 2 raises an error ---- *)
 Definition ex_dag : dag := dag_of_table ex_top.
 Definition ex_exec (a : nat) (m : nat -> option nat) : option nat :=
